@@ -19,6 +19,21 @@ CLAIMED = {
  "C04": ("edge-sensitive forward search over the SSA CFG along branches consistent with err == io.EOF; taint flow from ReadBytes to splitters through trims; SSA shape check of ReadLine fragment joining",
          "Decides that no line reader can return past the bytes delivered together with io.EOF without looking at them (final record never dropped), that every BED/GFF line is CR/whitespace-trimmed before splitting, and that FASTA/FASTQ readers join long-line fragments. Record equality under re-wrapping is not decided.",
          "bufio.Reader semantics of ReadBytes/ReadLine", "DESIGN.md §2.C, §4/C04"),
+ "C05": ("ownership classification (FRESH / ALIAS(receiver|param) / UNKNOWN) of every slice-typed field of each Clone() result, with element-wise deep-freshness; data dependence of the per-row offset on the loop's row variable in Multi.RevComp/Reverse",
+         "Decides that no Clone() of the seven sequence containers shares a letter/row/annotation backing array with its receiver (the 'independent deep copy' clause) and that the offset each row receives when a multiple alignment is reversed depends on that row (necessary for mirroring ragged rows about the alignment's span). The reversal algebra itself (involution, complement, quality travel) is value-level and not decided.",
+         "append(T(nil),..)/make/X.Make/Clone() allocate; interface and func typed fields are shared by design", "DESIGN.md §2.F/G, §4/C05"),
+ "C06": ("ownership classification of every SetSlice argument in sequtils (fresh destination unless dst == src); must-pass dataflow over go/cfg for Compose's scratch reverser",
+         "Decides that when destination and source differ the storage installed in the destination (and handed to the scratch reverser) is newly allocated in Join/Truncate/Stitch/Compose, and that every iteration of Compose that appends a reversed segment installed and reversed *that* segment. Positional correctness of slice bounds, Stitch's merge and Trim's optimality are not decided.",
+         "alphabet.Slice.Make allocates; Append/Copy stay in their receiver's storage or a grown copy", "DESIGN.md §2.F/G, §4/C06"),
+ "C07": ("retention analysis: no slice-typed caller value (nor a loop-reused scratch buffer) reaches receiver storage in AppendColumns/AppendEach, with type-resolved per-method retention summaries; clone deep-freshness as C05",
+         "Decides the 'without retaining the caller's buffers' clause for the seven append methods and the 'Clone is deep' clause. Row/column view equality, Delete/Flush/Subseq semantics and consensus are value-level and not decided.",
+         "append(dst, xs...) copies elements; it retains xs only when the elements are themselves slices", "DESIGN.md §2.F, §4/C07"),
+ "C09": ("typed-AST sibling comparison of the generated Letters/QLetters aligner variants; sibling agreement on argument validation; SSA sign-check (dominance) analysis of letter-index values before subscript use",
+         "Decides that the six Letters/QLetters variant pairs are the same program modulo element access (type independence), that all twelve variants and six entry points perform the full argument validation, and that no letter index can be used as a subscript before its sign was checked (illegal letters give an error, not a panic). Path monotonicity, score bookkeeping and Format are value-level and not decided.",
+         "alphabet.Index holds -1 for letters outside the alphabet; a validation loop's bounds are not checked", "DESIGN.md §2.H/I, §4/C09"),
+ "C10": ("SSA sign-check (dominance) analysis of base codes looked up through the alphabet index table before they are packed into the k-mer word",
+         "Decides one necessary guard of 'no invalid letter inside a reported k-mer': every looked-up base code is sign-checked before conversion to the unsigned k-mer word in ForEachKmerOf and both KmerOf functions. It does not decide the index's correctness (watermark arithmetic, prefix sums, bucket bounds are value-level).",
+         "alphabet.Index holds -1 for letters outside the alphabet", "DESIGN.md §2.I, §4/C10"),
  "C17": ("constant-table consistency check over go/types constant values of the built-in alphabet definitions (AST + types)",
          "Decides, for the seven built-in alphabets, every clause the property states about their *definitions* (distinct ASCII letters, involutive case-preserving pairing closed over the alphabet, 3-minus-index complement rule, gap at index 0) from the constants in the source. It does not decide that the constructors build the tables the definitions describe.",
          "go/types constant evaluation; constructors interpret their arguments positionally", "DESIGN.md §2.J, §4/C17"),
